@@ -100,7 +100,8 @@ fn main() {
          blocks, loops incl. back to the entry block, stack-pointer arithmetic and masking, direct/indirect/extern calls, \
          indirect jumps, returns; assignment cycles `Y = f(X); X = g(Y)` through 2-3 registers followed by a jump / diamond / loop \
          back-edge and observable reads of X; nested extension casts of every ordered pair of kinds, directly and through an \
-         inlined temporary, reaching an observable) -> real normalize_basic -> every optimizing pass (chained as in normalize_optimize, \
+         inlined temporary, reaching an observable; loads / assignments that read the register they overwrite after a \
+         non-foldable assignment to it) -> real normalize_basic -> every optimizing pass (chained as in normalize_optimize, \
          or alone) -> programs before/after; each function is run from several initial states by the Lean reference \
          interpreter (random states plus two pattern states with the top bit of every sub-piece set); non-trivial = at least one pass changed the program; distinct by program text",
     );
@@ -152,7 +153,9 @@ fn main() {
     // directed programs that are always run: assignment cycles across a block boundary (the whole chain and
     // expression propagation alone)
     if !args.extra.contains_key("crafted") {
-        for (name, program) in cycle_directed_programs().into_iter().chain(castnest_directed_programs()) {
+        for (name, program) in
+            cycle_directed_programs().into_iter().chain(castnest_directed_programs()).chain(loadself_directed_programs())
+        {
             let mut project = project_x64(program);
             let _ = project.normalize_basic();
             let mut seeds: Vec<u64> = (0..nstates).map(|k| 2000 + k).collect();
@@ -160,7 +163,7 @@ fn main() {
             let all: Vec<String> = PASSES.iter().map(|s| s.to_string()).collect();
             let (l, _) = case_line(&project, &all, true, &seeds, fuel, &mut out);
             out.case(&l, Some(name));
-            for single in ["prop", "triv"] {
+            for single in ["prop", "triv", "dve"] {
                 let (l, _) = case_line(&project, &[single.to_string()], false, &seeds, fuel, &mut out);
                 out.case(&l, None);
             }
